@@ -1,12 +1,19 @@
 import NdnModel.Drv.C06
+import NdnModel.ReceiveBytes
+import NdnModel.Sha256
 import NdnGen.C10
 /-  Line protocol for the C10 models.
     `C10 lp <hex>`                      → `ok <nack>:<tok>:<frag>` | `err <cls>`      (parse_lp_packet_v2)
     `C10 nack <reason> <interesthex>`   → `ok <hex>`                                   (make_network_nack)
     `C10 put <tokhex> <datahex>`        → `ok <hex>`                                   (_put_raw_packet_with_pit_token)
     `C10 replies <ev>;<ev>…`            → `ok <hex>,<hex>…`   ev ::= i:<tok|~> | r:<idx>:<datahex>
-    `C10 recv <v2|v1> <pit> <fib> <pkt> …`   pkt ::= <typ>,<wirehex>,<int>,<data>
-        as `C06 recv`, but the envelope layer (parse_lp_packet_v2, parse_tl_num) is computed by the model -/
+    `C10 recv <v2|v1> <pit> <fib> <pkt> …`   pkt ::= <typ>,<wirehex>,<int>,<data>[,<replyhex>]
+        as `C06 recv`, but the envelope layer (parse_lp_packet_v2, parse_tl_num) is computed by the model.
+        The answer continues with ` # ` and the trace of the byte-level pipeline `Ndn.RecvBytes.receiveBytes` (all four
+        decoders computed from <wirehex> alone by the codec models of C07, SHA-256 of NdnModel/Sha256.lean; the given
+        <int> / <data> outcomes are ignored): per packet `ok:<effects>^<pit after the packet>` | `err:<cls>`, where a
+        handler invocation is written `I<prefix>:<token>` and, when the packet carries <replyhex> (the handler replies
+        with these bytes at once), `I<prefix>:<token>><bytes written to the face>` (`Ndn.Lp.reply`). -/
 namespace Ndn.Drv.C10
 open Ndn Ndn.Recv Ndn.Lp Ndn.Drv.C06
 
@@ -22,21 +29,42 @@ def parseEv (s : String) : Option Ev :=
   | ["r", i, d] => do pure (Ev.reply (← i.toNat?) (← fromHex d))
   | _ => none
 
-def parsePkt (s : String) : Option (Nat × Bytes × Decoders) :=
+def parsePkt (s : String) : Option (Nat × Bytes × Decoders × Option Bytes) :=
   match s.splitOn "," with
-  | [t, w, i, d] => do
+  | t :: w :: i :: d :: rest => do
+    let r ← match rest with
+      | [] => some none
+      | [h] => (fromHex h).map some
+      | _ => none
     let i ← outcome i parseIntFacts
     let d ← outcome d parseDataFacts
-    pure (← t.toNat?, ← fromHex w, decoders T (fun _ => i) (fun _ => d))
+    pure (← t.toNat?, ← fromHex w, decoders T (fun _ => i) (fun _ => d), r)
   | _ => none
 
-def runPkts (g : Guards) (st : State) : List (Nat × Bytes × Decoders) → List String
+def runPkts (g : Guards) (st : State) : List (Nat × Bytes × Decoders × Option Bytes) → List String
   | [] => ["@" ++ showPit st.pit]
-  | (t, w, D) :: r =>
+  | (t, w, D, _) :: r =>
     match receive g D st t w with
     | .ok (st', effs) =>
       ("ok:" ++ (if effs.isEmpty then "-" else "+".intercalate (effs.map showEff))) :: runPkts g st' r
     | .error e => ("err:" ++ e.name) :: runPkts g st r
+
+/-- a handler invocation together with what its reply closure writes to the face for the reply `r` -/
+def showEffB (reply : Option Bytes) : Effect → String
+  | .invoke p t =>
+    "I" ++ showName p ++ ":" ++ showOptHex t ++
+      (match reply with | some r => ">" ++ toHex (Lp.reply T t r) | none => "")
+  | e => showEff e
+
+/-- the byte-level pipeline on the wires alone -/
+def runBytes (g : Guards) (st : State) : List (Nat × Bytes × Decoders × Option Bytes) → List String
+  | [] => []
+  | (t, w, _, rep) :: r =>
+    match RecvBytes.receiveBytes g Sha256.sha256 st t w with
+    | .ok (st', effs) =>
+      ("ok:" ++ (if effs.isEmpty then "-" else "+".intercalate (effs.map (showEffB rep))) ++ "^" ++ showPit st'.pit)
+        :: runBytes g st' r
+    | .error e => ("err:" ++ e.name) :: runBytes g st r
 
 def handle (args : List String) : String :=
   match args with
@@ -59,7 +87,8 @@ def handle (args : List String) : String :=
   | "recv" :: fe :: pit :: fib :: pkts =>
     match (if fe == "v2" then some Gen.C10.v2 else if fe == "v1" then some Gen.C10.v1 else none),
           parsePit pit, parseFib fib, pkts.mapM parsePkt with
-    | some g, some p, some f, some ps => " ".intercalate (runPkts g { pit := p, fib := f } ps)
+    | some g, some p, some f, some ps =>
+      " ".intercalate (runPkts g { pit := p, fib := f } ps ++ "#" :: runBytes g { pit := p, fib := f } ps)
     | _, _, _, _ => "bad-op"
   | _ => "bad-op"
 
